@@ -31,6 +31,7 @@ import (
 	"github.com/AliceO2Group/Control/common/utils"
 	"io"
 	"os/exec"
+	"sync"
 	"syscall"
 	"time"
 
@@ -47,13 +48,17 @@ import (
 
 type basicTaskBase struct {
 	taskBase
-	taskCmd                 *exec.Cmd
+	mu                      sync.Mutex    // guards taskCmd, taskDone, pendingFinalTaskStateCh and killed
+	taskCmd                 *exec.Cmd     // the current (or last) run, nil if none was started
+	taskDone                chan struct{} // closed once taskCmd has been reaped and its final state decided
+	killed                  bool          // Kill was requested, no more status updates after TASK_FINISHED
 	transitioner            transitioner.Transitioner
-	pendingFinalTaskStateCh chan mesos.TaskState
+	pendingFinalTaskStateCh chan mesos.TaskState // belongs to the current run
 }
 
 func (t *basicTaskBase) startBasicTask() (err error) {
-	t.taskCmd, err = prepareTaskCmd(t.Tci)
+	var taskCmd *exec.Cmd
+	taskCmd, err = prepareTaskCmd(t.Tci)
 	if err != nil {
 		msg := "cannot build task command"
 		log.WithField("partition", t.knownEnvironmentId.String()).
@@ -65,7 +70,7 @@ func (t *basicTaskBase) startBasicTask() (err error) {
 			Error(msg)
 		return err
 	}
-	if t.taskCmd == nil {
+	if taskCmd == nil {
 		return errors.New("could not instantiate basic task command")
 	}
 
@@ -138,10 +143,10 @@ func (t *basicTaskBase) startBasicTask() (err error) {
 		stderr = &stderrBuf
 	}
 
-	stdoutIn, _ := t.taskCmd.StdoutPipe()
-	stderrIn, _ := t.taskCmd.StderrPipe()
+	stdoutIn, _ := taskCmd.StdoutPipe()
+	stderrIn, _ := taskCmd.StderrPipe()
 
-	err = t.taskCmd.Start()
+	err = taskCmd.Start()
 
 	if err != nil {
 		log.WithField("partition", t.knownEnvironmentId.String()).
@@ -160,17 +165,31 @@ func (t *basicTaskBase) startBasicTask() (err error) {
 		WithField("task", t.ti.Name).
 		Debug("basic task started")
 
+	// Each run has its own pending-state channel and done channel, so a stop request that
+	// loses the race against the natural end of a run cannot leak into the next run.
+	pendingFinalTaskStateCh := make(chan mesos.TaskState, 1)
+	taskDone := make(chan struct{})
+	t.mu.Lock()
+	t.taskCmd = taskCmd
+	t.taskDone = taskDone
+	t.pendingFinalTaskStateCh = pendingFinalTaskStateCh
+	t.mu.Unlock()
+
+	var copyWg sync.WaitGroup
+	copyWg.Add(2)
 	go func() {
+		defer copyWg.Done()
 		_, errStdout = io.Copy(stdout, stdoutIn)
 	}()
 	go func() {
+		defer copyWg.Done()
 		_, errStderr = io.Copy(stderr, stderrIn)
 	}()
 
 	go func() {
-		taskCmd := t.taskCmd
-		err = taskCmd.Wait()
+		err := taskCmd.Wait()
 		// ^ when this unblocks, the task is done
+		copyWg.Wait() // Wait has closed the pipes, so the copies end and the buffers are complete
 
 		pendingState := mesos.TASK_FINISHED
 		var tciCommandStr string
@@ -204,12 +223,17 @@ func (t *basicTaskBase) startBasicTask() (err error) {
 			processTerminatedOnItsOwn = true
 		}
 
+		// The final state is decided under the lock: a concurrent stop/kill request either
+		// sees this run as done, or has its pending state honoured here.
+		t.mu.Lock()
 		select {
-		case pending := <-t.pendingFinalTaskStateCh:
+		case pending := <-pendingFinalTaskStateCh:
 			pendingState = pending
 			processTerminatedOnItsOwn = false
 		default:
 		}
+		close(taskDone)
+		t.mu.Unlock()
 
 		if errStdout != nil || errStderr != nil {
 			log.WithField("partition", t.knownEnvironmentId.String()).
@@ -244,23 +268,39 @@ func (t *basicTaskBase) startBasicTask() (err error) {
 }
 
 func (t *basicTaskBase) ensureBasicTaskKilled() (err error) {
-	if t.taskCmd == nil {
-		return nil
-	}
 	if t.Tci.ControlMode == controlmode.HOOK {
 		return nil
 	}
-	if t.taskCmd.ProcessState.Exited() {
-		return nil
+	t.mu.Lock()
+	defer t.mu.Unlock()
+	return t.killRunningTaskLocked()
+}
+
+// killRunningTaskLocked kills the process group of the current run unless there is none
+// or it has already been reaped. Must be called with t.mu held.
+func (t *basicTaskBase) killRunningTaskLocked() (err error) {
+	if t.taskCmd == nil || t.taskCmd.Process == nil {
+		return nil // nothing was started
+	}
+	select {
+	case <-t.taskDone:
+		return nil // already exited and reported
+	default:
 	}
 
 	// Preparing to kill running task
-	t.pendingFinalTaskStateCh <- mesos.TASK_KILLED
+	select {
+	case t.pendingFinalTaskStateCh <- mesos.TASK_KILLED:
+	default: // a stop/kill is already pending for this run
+	}
 
 	// TODO: SIGTERM before SIGKILL
 
 	pid := t.taskCmd.Process.Pid
 	err = syscall.Kill(-pid, syscall.SIGKILL)
+	if err == syscall.ESRCH {
+		return nil // the whole group is gone already, the reaper is about to report
+	}
 	if err != nil {
 		log.WithError(err).
 			WithField("partition", t.knownEnvironmentId.String()).
@@ -284,7 +324,14 @@ func (t *basicTaskBase) doLaunch(transitionFunc transitioner.DoTransitionFunc) e
 		WithField("level", infologger.IL_Devel).
 		Debug("basic task staged")
 
-	time.AfterFunc(200*time.Millisecond, func() { t.sendStatus(t.knownEnvironmentId, mesos.TASK_RUNNING, "") })
+	time.AfterFunc(200*time.Millisecond, func() {
+		t.mu.Lock()
+		defer t.mu.Unlock()
+		if t.killed {
+			return // TASK_FINISHED is (being) sent, nothing may follow it
+		}
+		t.sendStatus(t.knownEnvironmentId, mesos.TASK_RUNNING, "")
+	})
 
 	return nil
 }
@@ -308,9 +355,19 @@ func (t *basicTaskBase) Transition(cmd *executorcmd.ExecutorCommand_Transition) 
 }
 
 func (t *basicTaskBase) Kill() error {
-	if t.taskCmd != nil {
-		t.taskCmd = nil
+	t.mu.Lock()
+	if t.killed {
+		t.mu.Unlock()
+		return nil // TASK_FINISHED was already sent
 	}
+	t.killed = true
+	if t.Tci.ControlMode != controlmode.HOOK {
+		// A hook may still be running its DESTROY command and is left alone,
+		// a basic task must not outlive its kill request.
+		_ = t.killRunningTaskLocked()
+	}
+	t.taskCmd = nil
+	t.mu.Unlock()
 
 	go t.sendStatus(t.knownEnvironmentId, mesos.TASK_FINISHED, "")
 	return nil
